@@ -268,3 +268,28 @@ def check(ctx):
     from . import c20
     r5 = ctx.rule('R5', 'attribute values / text reach the XML only through the stdlib escaping functions (shared with C20.R1)', floor=12)
     c20.escaping_rule(ctx, r5)
+
+    # ------------------------------------------------------------------ R6 a parser can be reused: per-file state starts fresh
+    r6 = ctx.rule('R6', 'everything GIRParser accumulates or sets while reading a file is re-initialised by parse_tree()', floor=4)
+    pm = py.methods('girparser', 'GIRParser')
+    if 'parse_tree' not in pm:
+        raise AnalysisError('GIRParser.parse_tree missing')
+    state = {}
+    for fname, f in pm.items():
+        if fname in ('__init__', 'parse_tree'):
+            continue
+        for n in P.walk_no_nested(f):
+            if isinstance(n, ast.Call) and isinstance(n.func, ast.Attribute) and n.func.attr in ('add', 'append', 'update', 'extend', 'insert', 'setdefault') and P.is_attr_of_self(n.func.value):
+                state.setdefault(n.func.value.attr, set()).add(fname)
+            elif isinstance(n, ast.Assign):
+                for tg in n.targets:
+                    if P.is_attr_of_self(tg):
+                        state.setdefault(tg.attr, set()).add(fname)
+    REVIEWED = {'_filename_stack': 'pushed and popped around each parse() in try/finally'}
+    fresh = set(tg.attr for n in P.walk_no_nested(pm['parse_tree']) if isinstance(n, ast.Assign) for tg in n.targets if P.is_attr_of_self(tg))
+    for attr, where in sorted(state.items()):
+        if attr in REVIEWED:
+            continue
+        r6.check(attr in fresh, 'self.%s reset per file' % attr, rm.rel, pm['parse_tree'].lineno,
+                 'GIRParser.%s is filled by %s but not re-initialised in parse_tree(): a parser used for a second file returns a namespace that still carries the includes / packages / '
+                 'settings of the first (and mutates the first one through the shared object)' % (attr, sorted(where)), detail=sorted(where))
